@@ -93,7 +93,7 @@ def parse_obs(o):
     # g: Snapshot::get_item(i) for i = 0..7 (data of the item, None where get_item returned None); absent in old replays
     gs = [None if x == "-" else x for x in d["g"].split(",")] if "g" in d else []
     # k: number of matcher columns of the items the snapshot handed out (the configured 2, or the first other value seen); absent in old replays
-    return {"p": int(d["p"]), "c": int(d["c"]), "m": ms, "d": ds, "inj": int(d["inj"]), "n": int(d["n"]), "u": int(d.get("u", 0)), "g": gs, "k": int(d.get("k", NCOLS))}
+    return {"p": int(d["p"]), "c": int(d["c"]), "m": ms, "d": ds, "inj": int(d["inj"]), "n": int(d["n"]), "u": int(d.get("u", 0)), "g": gs, "k": int(d.get("k", NCOLS)), "mi": d.get("mi", "ok")}
 
 
 class Track:
